@@ -1,7 +1,7 @@
 """C02 — liveness is exactly the set of register bytes that can still be read."""
 
 def run(ctx):
-    if not ctx.build_harness():
+    if not ctx.build_harness(['c09.go', 'c02.go']):
         return
     ctx.forbidden_scan()
     if not ctx.build_driver():
